@@ -196,6 +196,20 @@ func (d *Driver) ReceiveProbe(timeout time.Duration) (*common.ProbeResponse, err
 	}
 }
 
+// Unused returns the scripted replies that were never handed out although they were due at or before `by`
+// (offset from the driver start).
+func (d *Driver) Unused(by time.Duration) []Reply {
+	d.mu.Lock()
+	defer d.mu.Unlock()
+	var out []Reply
+	for _, r := range d.script {
+		if !r.used && !r.due.IsZero() && !r.due.After(d.start.Add(by)) && r.Err == nil && r.Bad == 0 {
+			out = append(out, *r)
+		}
+	}
+	return out
+}
+
 // Snapshot returns a copy of the event log.
 func (d *Driver) Snapshot() []Event {
 	d.mu.Lock()
